@@ -1,20 +1,25 @@
 """Contracts for jade/cli/resubmit_jobs.py and Cluster.prepare_for_resubmission (C13)."""
 from pyvc.spec import record, contract, define, ghost, opaque_fn, opaque_global, CONTRACTS as _C
+ghost("reset_set", "Set[Name]")
 
 F = "jade/cli/resubmit_jobs.py"
 opaque_global("CONFIG_FILE", "EVENTS_DIR")
 contract("JadeJob.get_blocking_jobs", kind="assumed", pure=True, params=[("self", "Ref[JadeJob]")], returns="Set[Name]", ensures=["result == self.blocked_by"],
          note="GenericCommandParameters.get_blocking_jobs returns the model's blocked_by set")
 contract("create_config_from_file_r", kind="assumed", params=[("filename", "Opaque")], returns="Ref[JobConfiguration]",
-         ensures=["Inv_cfg(result)",
+         ensures=["result == uf('config_of', 'Ref[JobConfiguration]', filename)", "Inv_cfg(result)",
                   # the configuration passed check_job_dependencies when it was submitted: every blocker is a configured job (C17)
-                  "forall(i, range(len(result.g_joblist)), subset(result.g_joblist[i].blocked_by, nameset(result.g_joblist)))"],
+                  "forall(i, range(len(result.g_joblist)), subset(result.g_joblist[i].blocked_by, nameset(result.g_joblist)))",
+                  "nameset(result.g_joblist) == ghost.universe"],        # the configuration of THIS submission
          note="config.json of the submission, as validated at submit time (C17)")
 
 define("DEPHIT", ["j", "S"], "exists(e, j.blocked_by, e in S)")      # some blocker of j is in S
 UB_DEFS = {"J": ([], "jobs_to_resubmit"), "J0": ([], "old(jobs_to_resubmit)"), "U": ([], "updated_blocking_jobs_by_name"),
            "NAMES": ([], "nameset(config.g_joblist)"), "JOB": (["x"], "config._jobs._jobs[x]"), "CFG": ([], "config"),
-           "JL": ([], "config.g_joblist")}
+           "JL": ([], "config.g_joblist"),
+           # the same, as callers can name it: the configuration stored in <output>/config.json
+           "XCFG": ([], "uf('config_of', 'Ref[JobConfiguration]', uf('pathjoin', 'Opaque', uf('Path/', 'Opaque', output), CONFIG_FILE))"),
+           "XJL": ([], "XCFG().g_joblist"), "XJOB": (["x"], "XCFG()._jobs._jobs[x]")}
 UB_INV = [
     "Inv_cfg(config)",
     "max_iter == len(JL())",
@@ -54,12 +59,12 @@ contract("_update_with_blocking_jobs", file=F,
          ensures=[
              "subset(old(jobs_to_resubmit), jobs_to_resubmit)",
              # closed: every configured job with a blocker in the final set is in the final set  (selected + transitive dependents)
-             "forall(m, range(len(JL())), implies(DEPHIT(JL()[m], jobs_to_resubmit), JL()[m].name in jobs_to_resubmit))",
+             "forall(m, range(len(XJL())), implies(DEPHIT(XJL()[m], jobs_to_resubmit), XJL()[m].name in jobs_to_resubmit))",
              # sound: nothing else - every added name is a configured job with a blocker in the final set
-             "forall(x, jobs_to_resubmit, x in old(jobs_to_resubmit) or (x in config._jobs._jobs and DEPHIT(JOB(x), jobs_to_resubmit)))",
+             "forall(x, jobs_to_resubmit, x in old(jobs_to_resubmit) or (x in XCFG()._jobs._jobs and DEPHIT(XJOB(x), jobs_to_resubmit)))",
              # the returned map restricts each dependent's blockers to the jobs that are rerun
-             "forall(m, range(len(JL())), implies(DEPHIT(JL()[m], jobs_to_resubmit), JL()[m].name in result "
-             "and result[JL()[m].name] == (JL()[m].blocked_by & jobs_to_resubmit)))",
+             "forall(m, range(len(XJL())), implies(DEPHIT(XJL()[m], jobs_to_resubmit), XJL()[m].name in result "
+             "and result[XJL()[m].name] == (XJL()[m].blocked_by & jobs_to_resubmit)))",
          ],
          modifies=["jobs_to_resubmit"])
 
@@ -68,7 +73,8 @@ _ub = _C["_update_with_blocking_jobs"]
 UB_U = ("forall(x, U(), x in J() and x in config._jobs._jobs and not empty(U()[x]) and subset(U()[x], JOB(x).blocked_by) and subset(U()[x], J()))")
 for _n in (1, 2):
     _ub.loops[_n]["invariant"].append(UB_U)
-_ub.ensures.append("forall(x, result, x in jobs_to_resubmit and x in config._jobs._jobs and result[x] == (JOB(x).blocked_by & jobs_to_resubmit))")
+_ub.ensures.append("forall(x, result, x in jobs_to_resubmit and x in XCFG()._jobs._jobs and not empty(result[x]) and result[x] == (XJOB(x).blocked_by & jobs_to_resubmit))")
+_ub.ensures.append("subset(jobs_to_resubmit, old(jobs_to_resubmit) | ghost.universe)")
 
 # ---- Cluster.prepare_for_resubmission ------------------------------------------------------------------------------
 FC = "jade/jobs/cluster.py"
@@ -125,7 +131,8 @@ contract("Cluster.prepare_for_resubmission", file=FC,
              "Inv_handle(self)", "cfg_mirrored(self)", "js_mirrored(self)",
              "not ghost.cluster_lock",
          ],
+         ghost_ensures=["ghost.reset_set == jobs_to_resubmit"],
          raises={"AssertionError": {"when": ["not self._config.is_complete"], "iff": True, "frame": True}},
-         modifies=["ClusterConfig.is_complete", "ClusterConfig.is_canceled", "ClusterConfig.submitted_jobs", "ClusterConfig.completed_jobs", "ClusterConfig.version",
+         modifies=["ghost.reset_set", "ClusterConfig.is_complete", "ClusterConfig.is_canceled", "ClusterConfig.submitted_jobs", "ClusterConfig.completed_jobs", "ClusterConfig.version",
                    "Job.state", "Job.blocked_by", "JobStatus.version", "self._config_hash", "self._job_status_hash",
                    "ghost.files", "ghost.vfiles", "ghost.file_writes"])
